@@ -1,18 +1,20 @@
 import DepLogic.Properties.C02
 import DepLogic.Properties.C01
+import DepLogic.Proofs.CutAlgebra
 /-
   C14 — Boolean-algebra laws.
 
   Markers: the laws hold up to equivalence (both sides are satisfied by the same environments).
   They are corollaries of C02's soundness theorems, for every fuel, all markers over good atoms.
 
-  Specifiers: every law is proved here as equality of the ADMITTED SETS (`*_mem`), for all
-  specifier objects over any linear preorder of bounds.  The property asks for more — equality
-  of the returned objects; that needs uniqueness of the canonical form, which is false for
-  PEP 440 bounds in general (the order is not dense: known finding G1), so object equality is
-  decided by the correspondence run (model `Spec.beq` vs Python `==` on the same triples) and
-  by the law oracle on the implementation, not by a theorem.  `*_mem` theorems are PARTIAL
-  with respect to the statement in that sense.
+  Specifiers: every law is proved as EQUALITY OF THE RETURNED OBJECTS (Python `==`, model
+  `Spec.beq`) for canonical operands over ANY linear preorder of bounds (`obj_*` theorems), and
+  also as equality of the admitted sets for arbitrary objects (`*_mem`).  Object equality comes
+  from uniqueness of canonical forms, which is false over the bound type itself when it is not
+  dense (PEP 440, known finding G1) but TRUE over its cut extension (Proofs/CanonUnique.lean:
+  a specifier denotes a set of positions "at / just below / just above a bound"); the operators
+  commute with the embedding (Proofs/CutMap.lean), so C01's exactness theorems hold over cuts
+  and every law about sets of cuts is a law about objects.
 -/
 namespace DepLogic
 namespace C14
@@ -137,6 +139,110 @@ theorem spec_complement_mem (a : Spec α) (ha : Canon a) (v : α) :
     rw [h2, C01.invert_exact _ ha]; exact Decidable.em _
 
 end specs
+
+/-! ### specifier laws as equalities of the returned objects -/
+section objects
+open Spec
+variable {α : Type} [LinPre α] (a0 : α)
+include a0
+
+theorem obj_and_comm (a b : Spec α) (ha : Canon a) (hb : Canon b) : (a.and b).beq (b.and a) = true :=
+  canon_unique a0 _ _ (and_canon _ _ ha hb) (and_canon _ _ hb ha)
+    (fun x s => by rw [and_memC, and_memC]; exact And.comm)
+
+theorem obj_and_assoc (a b c : Spec α) (ha : Canon a) (hb : Canon b) (hc : Canon c) :
+    ((a.and b).and c).beq (a.and (b.and c)) = true :=
+  canon_unique a0 _ _ (and_canon _ _ (and_canon _ _ ha hb) hc) (and_canon _ _ ha (and_canon _ _ hb hc))
+    (fun x s => by simp only [and_memC]; exact _root_.and_assoc)
+
+theorem obj_and_idem (a : Spec α) (ha : Canon a) : (a.and a).beq a = true :=
+  canon_unique a0 _ _ (and_canon _ _ ha ha) ha (fun x s => by rw [and_memC]; exact and_self_iff)
+
+theorem obj_or_comm (a b : Spec α) (ha : Canon a) (hb : Canon b) :
+    ∃ r s, a.or b = some r ∧ b.or a = some s ∧ r.beq s = true := by
+  obtain ⟨r, h1, c1, m1⟩ := or_memC a b ha hb
+  obtain ⟨s, h2, c2, m2⟩ := or_memC b a hb ha
+  exact ⟨r, s, h1, h2, canon_unique a0 _ _ c1 c2 (fun x n => by rw [m1, m2]; exact Or.comm)⟩
+
+theorem obj_or_assoc (a b c : Spec α) (ha : Canon a) (hb : Canon b) (hc : Canon c) :
+    ∃ ab bc l r, a.or b = some ab ∧ b.or c = some bc ∧ ab.or c = some l ∧ a.or bc = some r ∧ l.beq r = true := by
+  obtain ⟨ab, h1, c1, m1⟩ := or_memC a b ha hb
+  obtain ⟨bc, h2, c2, m2⟩ := or_memC b c hb hc
+  obtain ⟨l, h3, c3, m3⟩ := or_memC ab c c1 hc
+  obtain ⟨r, h4, c4, m4⟩ := or_memC a bc ha c2
+  exact ⟨ab, bc, l, r, h1, h2, h3, h4,
+    canon_unique a0 _ _ c3 c4 (fun x n => by rw [m3, m4, m1, m2]; exact _root_.or_assoc)⟩
+
+theorem obj_or_idem (a : Spec α) (ha : Canon a) : ∃ r, a.or a = some r ∧ r.beq a = true := by
+  obtain ⟨r, h1, c1, m1⟩ := or_memC a a ha ha
+  exact ⟨r, h1, canon_unique a0 _ _ c1 ha (fun x n => by rw [m1]; exact or_self_iff)⟩
+
+theorem obj_absorb_and_or (a b : Spec α) (ha : Canon a) (hb : Canon b) :
+    ∃ r, a.or b = some r ∧ (a.and r).beq a = true := by
+  obtain ⟨r, h1, c1, m1⟩ := or_memC a b ha hb
+  refine ⟨r, h1, canon_unique a0 _ _ (and_canon _ _ ha c1) ha (fun x n => ?_)⟩
+  rw [and_memC, m1]; exact ⟨fun h => h.1, fun h => ⟨h, Or.inl h⟩⟩
+
+theorem obj_absorb_or_and (a b : Spec α) (ha : Canon a) (hb : Canon b) :
+    ∃ r, a.or (a.and b) = some r ∧ r.beq a = true := by
+  obtain ⟨r, h1, c1, m1⟩ := or_memC a (a.and b) ha (and_canon _ _ ha hb)
+  refine ⟨r, h1, canon_unique a0 _ _ c1 ha (fun x n => ?_)⟩
+  rw [m1, and_memC]; exact ⟨fun h => h.elim id (fun h => h.1), Or.inl⟩
+
+theorem obj_and_or_distrib (a b c : Spec α) (ha : Canon a) (hb : Canon b) (hc : Canon c) :
+    ∃ bc r, b.or c = some bc ∧ (a.and b).or (a.and c) = some r ∧ (a.and bc).beq r = true := by
+  obtain ⟨bc, h1, c1, m1⟩ := or_memC b c hb hc
+  obtain ⟨r, h2, c2, m2⟩ := or_memC (a.and b) (a.and c) (and_canon _ _ ha hb) (and_canon _ _ ha hc)
+  refine ⟨bc, r, h1, h2, canon_unique a0 _ _ (and_canon _ _ ha c1) c2 (fun x n => ?_)⟩
+  rw [and_memC, m1, m2, and_memC, and_memC]; exact and_or_left
+
+theorem obj_or_and_distrib (a b c : Spec α) (ha : Canon a) (hb : Canon b) (hc : Canon c) :
+    ∃ l ab ac, a.or (b.and c) = some l ∧ a.or b = some ab ∧ a.or c = some ac ∧ l.beq (ab.and ac) = true := by
+  obtain ⟨l, h1, c1, m1⟩ := or_memC a (b.and c) ha (and_canon _ _ hb hc)
+  obtain ⟨ab, h2, c2, m2⟩ := or_memC a b ha hb
+  obtain ⟨ac, h3, c3, m3⟩ := or_memC a c ha hc
+  refine ⟨l, ab, ac, h1, h2, h3, canon_unique a0 _ _ c1 (and_canon _ _ c2 c3) (fun x n => ?_)⟩
+  rw [m1, and_memC, and_memC, m2, m3]; exact or_and_left
+
+theorem obj_invert_involution (a : Spec α) (ha : Canon a) : (a.invert.invert).beq a = true :=
+  canon_unique a0 _ _ (invert_canon _ (invert_canon _ ha)) ha
+    (fun x n => by rw [invert_memC _ (invert_canon _ ha), invert_memC _ ha]; exact Classical.not_not)
+
+theorem obj_de_morgan_and (a b : Spec α) (ha : Canon a) (hb : Canon b) :
+    ∃ r, a.invert.or b.invert = some r ∧ ((a.and b).invert).beq r = true := by
+  obtain ⟨r, h1, c1, m1⟩ := or_memC a.invert b.invert (invert_canon _ ha) (invert_canon _ hb)
+  refine ⟨r, h1, canon_unique a0 _ _ (invert_canon _ (and_canon _ _ ha hb)) c1 (fun x n => ?_)⟩
+  rw [invert_memC _ (and_canon _ _ ha hb), and_memC, m1, invert_memC _ ha, invert_memC _ hb]
+  exact Classical.not_and_iff_not_or_not
+
+theorem obj_de_morgan_or (a b : Spec α) (ha : Canon a) (hb : Canon b) :
+    ∃ r, a.or b = some r ∧ (r.invert).beq (a.invert.and b.invert) = true := by
+  obtain ⟨r, h1, c1, m1⟩ := or_memC a b ha hb
+  refine ⟨r, h1, canon_unique a0 _ _ (invert_canon _ c1) (and_canon _ _ (invert_canon _ ha) (invert_canon _ hb)) (fun x n => ?_)⟩
+  rw [invert_memC _ c1, m1, and_memC, invert_memC _ ha, invert_memC _ hb]
+  exact not_or
+
+/-- `a & ~a` IS `EmptySpecifier()` and `a | ~a` is universal (`is_any()`), as objects -/
+theorem obj_complement (a : Spec α) (ha : Canon a) :
+    a.and a.invert = .empty ∧ ∃ r, a.or a.invert = some r ∧ r.isAny = true := by
+  constructor
+  · have h := canon_unique a0 (a.and a.invert) .empty (and_canon _ _ ha (invert_canon _ ha)) trivial
+      (fun x n => by
+        rw [and_memC, invert_memC _ ha]
+        exact ⟨fun h => absurd h.1 h.2, fun h => by simp [memC, mem] at h⟩)
+    cases hx : a.and a.invert <;> simp [hx, Spec.beq, Spec.isAny] at h ⊢
+  · obtain ⟨r, h1, c1, m1⟩ := or_memC a a.invert ha (invert_canon _ ha)
+    refine ⟨r, h1, ?_⟩
+    have h := canon_unique a0 .any r trivial c1 (fun x n => by
+      rw [m1, invert_memC _ ha]
+      exact ⟨fun _ => Classical.em _, fun _ => memC_any x n⟩)
+    simpa [Spec.beq] using h
+
+end objects
+
+/-- at PEP 440 versions (non-vacuity of the `a0` parameter and of canonicity) -/
+example : (C01.exA.and C01.exB).beq (C01.exB.and C01.exA) = true :=
+  obj_and_comm ({ release := [0] } : Ver) _ _ (by decide) (by decide)
 
 end C14
 end DepLogic
